@@ -208,8 +208,14 @@ func ValidateParameter(ctx context.Context, input *RequestValidationInput, param
 				// or validating this input again would add the default a second time
 				input.QueryParams = q
 			case openapi3.ParameterInHeader:
+				if req.Header == nil {
+					req.Header = make(http.Header) // a request assembled by hand may have none
+				}
 				req.Header.Add(parameter.Name, defaultValueToString(value))
 			case openapi3.ParameterInCookie:
+				if req.Header == nil {
+					req.Header = make(http.Header)
+				}
 				req.AddCookie(&http.Cookie{
 					Name:  parameter.Name,
 					Value: defaultValueToString(value),
